@@ -619,6 +619,8 @@ func main() {
 	only := flag.String("only", "", "comma separated case ids to run (others skipped)")
 	wallMs := flag.Int("wallms", 5000, "watchdog per run in ms (multiplied by budgetx)")
 	workers := flag.Int("workers", runtime.NumCPU(), "parallel cases")
+	skip := flag.String("skip", "", "comma separated case ids not to run")
+	progress := flag.String("progress", "", "file that gets one line per started ('s id') and finished ('e id') case, unbuffered: after a crash of the process the cases in flight can be read from it")
 	cgostress := flag.Int("cgostress", 0, "seconds of the cgozlib GC stress (known finding), 0 = off")
 	flag.Parse()
 	if *cgostress > 0 {
@@ -636,7 +638,30 @@ func main() {
 			onlySet[v] = true
 		}
 	}
-	want := func(id int) bool { return len(onlySet) == 0 || onlySet[id] }
+	skipSet := map[int]bool{}
+	if *skip != "" {
+		for _, s := range strings.Split(*skip, ",") {
+			v, err := strconv.Atoi(strings.TrimSpace(s))
+			if err != nil {
+				fatal("bad -skip: " + err.Error())
+			}
+			skipSet[v] = true
+		}
+	}
+	want := func(id int) bool { return (len(onlySet) == 0 || onlySet[id]) && !skipSet[id] }
+	var prog *os.File
+	if *progress != "" {
+		f, err := os.OpenFile(*progress, os.O_CREATE|os.O_WRONLY|os.O_APPEND|os.O_TRUNC, 0o644)
+		if err != nil {
+			fatal(err.Error())
+		}
+		prog = f
+	}
+	mark := func(c byte, id int) {
+		if prog != nil {
+			prog.Write([]byte(fmt.Sprintf("%c %d\n", c, id)))
+		}
+	}
 
 	out := os.Stdout
 	if *outPath != "" {
@@ -659,7 +684,10 @@ func main() {
 		go func() {
 			defer wg.Done()
 			for j := range jobs {
-				results <- doCase(j.id, j.kind, j.what, j.data, j.claimed, *budgetx, j.seeks, wall, *withHex)
+				mark('s', j.id)
+				r := doCase(j.id, j.kind, j.what, j.data, j.claimed, *budgetx, j.seeks, wall, *withHex)
+				mark('e', j.id)
+				results <- r
 			}
 		}()
 	}
